@@ -435,7 +435,9 @@ def compare_step(op, ri, snaps, share, ans, taint=None):
     if ans == 'bad-op':
         return 'driver does not understand the request'
     if k == 'freeze':
-        return None if ans == 'ok' else 'freeze: model answers %r' % ans
+        # (freezing a column that does not exist: KeyError from __getitem__ on both sides)
+        ok = (ans == 'ok' and ri[0] == 'ok') or (ans == 'no-such-column' and ri[0] == 'err')
+        return None if ok else 'freeze: implementation %r, model answers %r' % (ri, ans)
     head, hd, td = ans.split(' | ')
     hres, tres = [sf.parse_res(x.split('=', 1)[1], k) for x in head.split(' ')]
     ri = (ri[0], list(ri[1]) if ri[0] == 'ok' else ri[1])
